@@ -102,6 +102,31 @@ Proof.
   destruct E as [f0 Hf]. eexists. exists f0. intros f L. cbn [get_complex]. rewrite (Hf f L). reflexivity.
 Qed.
 
+(* is_ground_variable: terminates on chains that end, and says whether the chain ends at a term *)
+Lemma is_ground_variable_ev ss t k : crank ss t k -> forall id n, t = TVar id n ->
+  exists r, chain ss t r /\
+    forall f, (k <= f)%nat -> is_ground_variable_id f id ss = Ok (match r with Some _ => true | None => false end).
+Proof.
+  induction 1 as [t Hv|id0 n0 Hg|id0 n0 u k Hg Hc IH]; intros id n E.
+  - subst t. discriminate Hv.
+  - injection E as <- <-. exists None. split; [now constructor|]. intros f _. destruct f; cbn; now rewrite Hg.
+  - injection E as <- <-. destruct (is_var u) eqn:Ev.
+    + destruct u as [| | | | | id2 n2 | | |]; try discriminate Ev.
+      destruct (IH id2 n2 eq_refl) as (r & Hr & Hf). exists r. split; [econstructor; eauto|].
+      intros f L. destruct f as [|f]; [lia|]. cbn [is_ground_variable_id]. rewrite Hg. apply Hf. lia.
+    + exists (Some u). split; [econstructor; [exact Hg|now constructor]|].
+      intros f _. destruct u; try discriminate Ev; destruct f; cbn; now rewrite Hg.
+Qed.
+
+Theorem is_ground_variable_terminates ss : chains_end ss -> forall id n,
+  exists r, chain ss (TVar id n) r /\
+    ev (fun f => is_ground_variable f (TVar id n) ss = Ok (match r with Some _ => true | None => false end)).
+Proof.
+  intros H id n. destruct (chains_crank ss H (TVar id n)) as [k Hk].
+  destruct (is_ground_variable_ev ss _ k Hk id n eq_refl) as (r & Hr & Hf).
+  exists r. split; [exact Hr|]. exists k. exact Hf.
+Qed.
+
 Lemma chain_reaches_ev ss id : forall o k, crank ss o k ->
   exists r, forall f, (k <= f)%nat -> chain_reaches f id o ss = Ok r.
 Proof.
